@@ -102,6 +102,26 @@ class Ctx:
         self.exhaustive = False
         self.note(f"cap hit: {what}")
 
+    def time_slice(self, parts_left):
+        """Context manager: the enclosed part may use at most 1/parts_left of the remaining wall-clock budget (so that one deep
+        exploration cannot starve the parts after it); a cap hit inside it is reported as usual."""
+        import contextlib  # noqa: PLC0415
+
+        ctx = self
+
+        @contextlib.contextmanager
+        def cm():
+            whole = ctx.deadline
+            if whole is not None:
+                now = time.time()
+                ctx.deadline = min(whole, now + max(0.0, whole - now) / max(1, parts_left))
+            try:
+                yield
+            finally:
+                ctx.deadline = whole
+
+        return cm()
+
     def out_of_time(self) -> bool:
         return self.deadline is not None and time.time() > self.deadline
 
